@@ -32,6 +32,10 @@ pub enum Ev {
     /// `yield_now`-style stream does). Legal behaviour for a stream; the queue must hand control
     /// back to the executor instead of re-polling the stream for ever.
     PollX,
+    /// Poll during which only stream `i` yields cooperatively (wakes its own waker, returns Pending): the others
+    /// answer from what they have (a stream with a complete item already in its read buffer needs no I/O poll and
+    /// is not subject to the task budget).
+    PollXOne(u8),
     /// Poll during which `ev` is executed re-entrantly: at the `nth` inner
     /// stream poll, `pos` 0 = before the stream's own body, 1 = after it,
     /// 2 = at the fq_point hook (after the Pending re-insert, lock released)
@@ -108,6 +112,8 @@ struct Shared {
     points: u8,
     items: Vec<u8>,
     exhausted: bool,
+    /// with `exhausted`: only this stream yields
+    exhausted_only: Option<usize>,
     polls_while_exhausted: u32,
 }
 
@@ -154,7 +160,7 @@ impl Stream for SStream {
         // cooperative budget exhausted: wake ourselves and say Pending, whatever is available
         let yielding = {
             let mut g = self.sh.lock().unwrap();
-            if g.exhausted {
+            if g.exhausted && g.exhausted_only.map(|o| o == id).unwrap_or(true) {
                 g.polls_while_exhausted += 1;
                 if g.polls_while_exhausted > 100 {
                     // the queue keeps re-polling a stream that keeps yielding: it would never return
@@ -406,6 +412,7 @@ impl Sim {
             points: 0,
             items: cfg.items.clone(),
             exhausted: false,
+            exhausted_only: None,
             polls_while_exhausted: 0,
         }));
         HOOK_SHARED.with(|h| *h.borrow_mut() = Some((sh.clone(), handle.clone())));
@@ -532,16 +539,18 @@ impl Sim {
             Ev::Close(i) => apply_simple(&self.sh, &self.handle, WinEv::Close(i)),
             Ev::Remove(i) => apply_simple(&self.sh, &self.handle, WinEv::Remove(i)),
             Ev::Poll => self.poll(Vec::new()),
-            Ev::PollX => {
+            Ev::PollX | Ev::PollXOne(_) => {
                 {
                     let mut g = self.sh.lock().unwrap();
                     g.exhausted = true;
+                    g.exhausted_only = if let Ev::PollXOne(i) = e { Some(i as usize) } else { None };
                     g.polls_while_exhausted = 0;
                 }
                 self.poll(Vec::new());
                 let polled = {
                     let mut g = self.sh.lock().unwrap();
                     g.exhausted = false;
+                    g.exhausted_only = None;
                     g.polls_while_exhausted
                 };
                 self.sync_woken();
@@ -757,6 +766,14 @@ pub fn enabled(cfg: &Config, m: &Model, plain: (u8, u8)) -> Vec<Ev> {
     }
     if cfg.coop_yield && m.s.iter().any(|s| s.inserted && !s.dropped) {
         v.push(Ev::PollX);
+        // one stream yields, the others answer: only interesting with at least two live streams
+        if m.s.iter().filter(|s| s.inserted && !s.dropped).count() >= 2 {
+            for (i, s) in m.s.iter().enumerate() {
+                if s.inserted && !s.dropped {
+                    v.push(Ev::PollXOne(i as u8));
+                }
+            }
+        }
     }
     if cfg.windows >= 1 && m.last != LastPoll::End {
         let wes = win_events(cfg, m);
@@ -1072,6 +1089,9 @@ pub fn parse_ev(s: &str) -> Option<Ev> {
     }
     if s == "PollX" {
         return Some(Ev::PollX);
+    }
+    if let Some(r) = s.strip_prefix("PollXOne(") {
+        return num(r.trim_end_matches(')')).map(Ev::PollXOne);
     }
     if let Some(r) = s.strip_prefix("PollW {") {
         // PollW { nth: 0, pos: 1, ev: Arrive(1) }
